@@ -17,7 +17,7 @@ ASSUME_FIBER = [
 
 
 class Step:
-    def __init__(self, family, variant, quick, thorough, cells=None, propfilter=True, hang=60, extra=None, budget=None):
+    def __init__(self, family, variant, quick, thorough, cells=None, propfilter=True, hang=None, extra=None, budget=None):
         self.family, self.variant, self.quick, self.thorough = family, variant, quick, thorough
         self.cells, self.propfilter, self.hang, self.extra, self.budget = cells, propfilter, hang, extra, budget
 
@@ -40,14 +40,59 @@ def run_steps(prop, tier, seed, steps, nontrivial_rule, level="exploration", ass
 def c01(tier, seed):
     steps = [
         Step("fam_core", "fib-asan", 120000, 4000000),
-        Step("fam_core", "thr-tsan", 3000, 60000, hang=120),
-        Step("fam_core", "thr-asan", 0, 60000, hang=120),
+        Step("fam_core", "thr-tsan", 3000, 60000),
+        Step("fam_core", "thr-asan", 0, 60000),
     ]
     return run_steps("C01", tier, seed, steps,
                      "the producer's fulfil call and the consumer's consume call overlapped in logical time "
                      "(neither returned before the other began)")
 
 
+def c07(tier, seed):
+    steps = [
+        Step("fam_exec", "fib-asan", 120000, 4000000, cells="strand/"),
+        Step("fam_exec", "thr-tsan", 3000, 80000, cells="strand/"),
+        Step("fam_exec", "thr-asan", 0, 60000, cells="strand/"),
+    ]
+    return run_steps("C07", tier, seed, steps,
+                     "at least two submitting threads and at least two strand jobs actually executed (so batches, "
+                     "re-submission and the idle transition can interleave with submissions)")
+
+
+def c08(tier, seed):
+    steps = [
+        Step("fam_exec", "fib-asan", 120000, 4000000, cells="pool/"),
+        Step("fam_exec", "thr-tsan", 3000, 80000, cells="pool/"),
+        Step("fam_exec", "thr-asan", 0, 60000, cells="pool/"),
+    ]
+    return run_steps("C08", tier, seed, steps,
+                     "at least two jobs were submitted while workers and the stopping thread ran concurrently")
+
+
+def c09(tier, seed):
+    steps = [
+        Step("fam_when", "fib-asan", 150000, 5000000, cells="all/,join/,empty"),
+        Step("fam_when", "thr-tsan", 4000, 100000, cells="all/,join/"),
+        Step("fam_when", "thr-asan", 0, 60000, cells="all/,join/"),
+    ]
+    return run_steps("C09", tier, seed, steps,
+                     "at least two inputs, or one input whose Set call overlapped the combinator call in logical time")
+
+
+def c10(tier, seed):
+    steps = [
+        Step("fam_when", "fib-asan", 150000, 5000000, cells="any/,empty"),
+        Step("fam_when", "thr-tsan", 4000, 100000, cells="any/"),
+        Step("fam_when", "thr-asan", 0, 60000, cells="any/"),
+    ]
+    return run_steps("C10", tier, seed, steps,
+                     "at least two inputs, or one input whose Set call overlapped the combinator call in logical time")
+
+
 PLANS = {
     "C01": c01,
+    "C07": c07,
+    "C08": c08,
+    "C09": c09,
+    "C10": c10,
 }
